@@ -60,7 +60,16 @@ type Decoder struct {
 	// n references to one map cost one conversion, not n
 	mapDone map[uintptr]bool
 	mapConv map[convertKey]reflect.Value
+
+	// nesting depth of the value being read (see _maxDecodeDepth)
+	depth int
 }
+
+// _maxDecodeDepth bounds the nesting of a value: the readers call one another once per level, and a
+// megabyte of list tags would otherwise exhaust the goroutine stack, which no recover can catch
+const _maxDecodeDepth = 100000
+
+var errTooDeep = newCodecError("ReadData", "value nested deeper than %d levels", _maxDecodeDepth)
 
 //NewDecoder new
 func NewDecoder(r ByteRuneReader, typ map[string]reflect.Type) *Decoder {
@@ -84,6 +93,7 @@ func (d *Decoder) Reset(r ByteRuneReader) {
 	d.refList = make([]reflect.Value, 0, 11)
 	d.mapDone = nil
 	d.mapConv = nil
+	d.depth = 0
 }
 
 //RegisterType register key/value type
@@ -124,6 +134,7 @@ func (d *Decoder) ReadObject() (obj interface{}, err error) {
 			obj, err = nil, newCodecError("ReadObject", "invalid data: %v", r)
 		}
 	}()
+	d.depth = 0
 	return EnsureInterface(d.ReadData())
 }
 
@@ -194,6 +205,12 @@ func (d *Decoder) readStructTag(tag byte) (interface{}, error) {
 
 //ReadData read object
 func (d *Decoder) ReadData() (interface{}, error) {
+	if d.depth >= _maxDecodeDepth {
+		return nil, errTooDeep
+	}
+	d.depth++
+	defer func() { d.depth-- }()
+
 	tag, err := d.readTag()
 	if err != nil {
 		hlog.Debugf("reading tag err:%v", err)
